@@ -63,6 +63,49 @@ Proof.
   - unfold nb_reduce at 1. rewrite sum_of_chunk_sums by (apply SC).
     rewrite array_split_concat by auto. apply (add_zero_l o L).
 Qed.
+
+(* ---- nan-sum of squares (used by nanvar / nanstd): squares are summed per piece, the piece sums added ---- *)
+Lemma fold_skip_sumsq l : forall acc,
+  fold_skip o (op_sum_square o) true l acc = fold_left (add o) (map (sq o) (nonnull o l)) acc.
+Proof.
+  unfold fold_skip, nonnull, op_sum_square. induction l as [|x l IH]; intros acc; simpl; auto.
+  destruct (is_null o x); simpl; apply IH.
+Qed.
+
+Definition sumsq (l : list V) : V := sum_list o (map (sq o) (nonnull o l)).
+
+Theorem nansumsq_one_pass arr : nb_reduce o (op_sum_square o) arr true (Some (zero o)) = sumsq arr.
+Proof. unfold nb_reduce. apply fold_skip_sumsq. Qed.
+
+Lemma sumsq_nonnull l : is_null o (sumsq l) = false.
+Proof.
+  unfold sumsq. apply sum_list_nonnull. intros x Hx. apply in_map_iff in Hx. destruct Hx as [y [<- Hy]].
+  apply (proj1 (proj2 SC)). eapply nn_nonnull; eauto.
+Qed.
+
+Lemma sumsq_app l1 l2 : sumsq (l1 ++ l2) = add o (sumsq l1) (sumsq l2).
+Proof. unfold sumsq. now rewrite nonnull_app, map_app, sum_list_app. Qed.
+
+Lemma sum_of_chunk_sumsq (chunks : list (list V)) : forall acc, is_null o acc = false ->
+  fold_skip o (op_sum o) true (map (fun a => nb_reduce o (op_sum_square o) a true (Some (zero o))) chunks) acc
+  = add o acc (sumsq (concat chunks)).
+Proof.
+  induction chunks as [|c chunks IH]; intros acc Ha.
+  - simpl. unfold sumsq, sum_list, nonnull. simpl. now rewrite (add_zero_r o L).
+  - cbn [map concat]. unfold fold_skip in *. cbn [fold_left].
+    rewrite nansumsq_one_pass. rewrite sumsq_nonnull. cbn [andb]. unfold op_sum at 2.
+    rewrite IH by (apply (proj1 SC); auto; apply sumsq_nonnull).
+    rewrite sumsq_app. now rewrite (add_assoc o L).
+Qed.
+
+Theorem nansumsq_any_threads arr n : (0 < n)%nat ->
+  nan_reduce o NSumSquare arr n = sumsq arr.
+Proof.
+  intros Hn. unfold nan_reduce, reduce_1d. destruct (n =? 1)%nat.
+  - apply nansumsq_one_pass.
+  - unfold nb_reduce at 1. rewrite sum_of_chunk_sumsq by (apply SC).
+    rewrite array_split_concat by auto. apply (add_zero_l o L).
+Qed.
 End NP.
 
 (* _nb_dot over integers: out[row] = sum_col a[col][row] * b[col] *)
